@@ -86,6 +86,8 @@ type BaseStore struct {
 
 	// Deprecated: if possible don't use this, use EventBus() directly instead
 	events.EventEmitter
+
+	closeMainLoopSub func()
 }
 
 func (b *BaseStore) DBName() string {
@@ -285,15 +287,26 @@ func (b *BaseStore) InitBaseStore(ipfs coreiface.CoreAPI, identity *identityprov
 		return fmt.Errorf("unable to subscribe to replicator events: %w", err)
 	}
 
+	// the subscription is closed by the main loop when it ends, or by Close:
+	// whichever comes first (closing it twice would panic)
+	var closeSubOnce sync.Once
+	b.closeMainLoopSub = func() {
+		closeSubOnce.Do(func() { _ = sub.Close() })
+	}
+
 	go func() {
-		defer sub.Close()
+		defer b.closeMainLoopSub()
 		ctx, span := b.tracer.Start(b.ctx, "base-store-main-loop", trace.WithAttributes(otkv.String("store-address", b.Address().String())))
 		defer span.End()
 
 		var e interface{}
 		for {
+			var open bool
 			select {
-			case e = <-sub.Out():
+			case e, open = <-sub.Out():
+				if !open {
+					return
+				}
 			case <-ctx.Done():
 				return
 			}
@@ -387,6 +400,15 @@ func (b *BaseStore) Close() error {
 	b.cancel()
 
 	b.closeFunc()
+
+	// the main loop may be held up (it waits for the join mutex while a Load is
+	// running) and not reading the replicator's events: once the buffer of its
+	// subscription is full, an emitter blocks holding the lock that Stop needs
+	// to close the replicator's emitters. Closing the subscription here drains
+	// it and lets them through
+	if b.closeMainLoopSub != nil {
+		b.closeMainLoopSub()
+	}
 
 	// Replicator teardown logic
 	b.Replicator().Stop()
